@@ -3,6 +3,7 @@ import CppUModel.Model.MockValue
 import CppUModel.Model.MockNamedValueList
 import CppUModel.Model.MockEntry
 import CppUModel.Model.MockReturn
+import CppUModel.Model.MockData
 import CppUModel.Gen.MockEquals
 /-!
 Driver for C09.
@@ -50,6 +51,8 @@ structure DState where
   dflt : Option Nat := some 0
   list : NList (Nat × String) := []
   next : Nat := 1
+  data : Store := []                 -- the data store of mock()
+  mockRepo : Repo := []              -- mock()'s own repository (the default repository while a mock() call runs)
 
 def DState.defaultRepo (st : DState) : Option Repo := st.dflt.bind fun i => st.repos[i]?
 
@@ -141,9 +144,71 @@ def retReaderNames : List (String × String) :=
   (retWords.flatMap fun w => [("call", s!"return{w}Value"), ("call", s!"return{w}ValueOrDefault")]) ++
   (retWords.flatMap fun w => [("support", s!"{lowerFirst w}ReturnValue"), ("support", s!"return{w}ValueOrDefault")])
 
+/-- `<entry>.<value token>` of eqapix ↦ (entry, integer kind + number | non-integer argument list) -/
+def xTok (tok : String) : Option (String × (String × Int ⊕ XArg)) :=
+  match tok.splitOn "." with
+  | [e, val] =>
+    let arg : Option (String × Int ⊕ XArg) :=
+      match splitTok val with
+      | ["bool", n] => if e == "c" then n.toInt?.map fun v => .inr (.cint v)
+                       else if n == "0" then some (.inr (.bool false)) else if n == "1" then some (.inr (.bool true)) else none
+      | ["dbl", v, t] =>
+        match hex64? v, hex64? t with
+        | some v, some t => some (.inr (.dbl2 (classify (Float.ofBits v)) (classify (Float.ofBits t))))
+        | _, _ => none
+      | ["dbld", v] => (hex64? v).map fun v => .inr (.dbl (classify (Float.ofBits v)))
+      | ["str", "null"] => some (.inr (.str none))
+      | ["str", h] => (bytes? h).map fun b => .inr (.str (some (cstr b)))
+      | ["mem", h] => (bytes? h).map fun b => .inr (.mem b)
+      | ["ptr", k] => k.toNat?.map fun k => .inr (.ptr k)
+      | ["cptr", k] => k.toNat?.map fun k => .inr (.cptr k)
+      | ["fptr", k] => k.toNat?.map fun k => .inr (.fptr k)
+      | [k, n] => if intKinds.contains k then n.toInt?.map fun v => .inl (k, v) else none
+      | _ => none
+    arg.map fun a => (e, a)
+  | _ => none
+
+/-- the value an entry point of class `cls` creates for an eqapix token -/
+def xValue (cls : String) (t : String × (String × Int ⊕ XArg)) : Option MVal :=
+  match t.2 with
+  | .inl (k, v) => entryValue cls t.1 k v
+  | .inr a => entryValueX cls t.1 a
+
+/-- data argument of a `dset` op -/
+def dArg (api tok : String) : Option DArg :=
+  match splitTok tok with
+  | ["bool", n] => if api == "c" then n.toInt?.map fun v => .x (.cint v)
+                   else if n == "0" then some (.x (.bool false)) else if n == "1" then some (.x (.bool true)) else none
+  | ["int", n] => n.toInt?.map fun v => .int "int" v
+  | ["uint", n] => n.toInt?.map fun v => .int "uint" v
+  | ["dbld", v] => (hex64? v).map fun v => .x (.dbl (classify (Float.ofBits v)))
+  | ["str", "null"] => some (.x (.str none))
+  | ["str", h] => (bytes? h).map fun b => .x (.str (some (cstr b)))
+  | ["ptr", k] => k.toNat?.map fun k => .x (.ptr k)
+  | ["cptr", k] => k.toNat?.map fun k => .x (.cptr k)
+  | ["fptr", k] => k.toNat?.map fun k => .x (.fptr k)
+  | ["obj", ty, k] => k.toNat?.map fun k => .obj ty k
+  | ["cobj", ty, k] => k.toNat?.map fun k => .cobj ty k
+  | _ => none
+
+/-- setter call a value token stands for (op `cell`) -/
+def setOpOf (tok : String) : Option SetOp :=
+  match splitTok tok with
+  | ["mem", h] => (bytes? h).map .mem
+  | ["obj", ty, k] | ["cobj", ty, k] => k.toNat?.map fun k => .obj ty k
+  | _ => none
+
+def showGetters (a : MVal) : List String := [
+  showGet "getIntValue" Gen.MockEquals.getIntValueSigned (Gen.MockEquals.getIntValueGen a),
+  showGet "getUnsignedIntValue" Gen.MockEquals.getUnsignedIntValueSigned (Gen.MockEquals.getUnsignedIntValueGen a),
+  showGet "getLongIntValue" Gen.MockEquals.getLongIntValueSigned (Gen.MockEquals.getLongIntValueGen a),
+  showGet "getUnsignedLongIntValue" Gen.MockEquals.getUnsignedLongIntValueSigned (Gen.MockEquals.getUnsignedLongIntValueGen a),
+  showGet "getLongLongIntValue" Gen.MockEquals.getLongLongIntValueSigned (Gen.MockEquals.getLongLongIntValueGen a),
+  showGet "getUnsignedLongLongIntValue" Gen.MockEquals.getUnsignedLongLongIntValueSigned (Gen.MockEquals.getUnsignedLongLongIntValueGen a)]
+
 def setRepo (st : DState) (i : Nat) (r : Repo) : DState := { st with repos := st.repos.set i r }
 
-def modelStep (st : DState) (op : List String) (obs : List (List String)) : DState × List String :=
+def modelStep0 (st : DState) (op : List String) (obs : List (List String)) : DState × List String :=
   match op with
   | ["eq", ta, tb] =>
     match mvalOf st ta, mvalOf st tb with
@@ -155,9 +220,73 @@ def modelStep (st : DState) (op : List String) (obs : List (List String)) : DSta
     match apiTok te, apiTok ta with
     | some (ea, ek, ev), some (aa, ak, av) =>
       match entryValue "expected" ea ek ev, entryValue "actual" aa ak av with
-      | some e, some a => (st, [s!"p {b01 (Gen.MockEquals.equalsGen e a)}"])
+      | some e, some a => (st, [s!"p {b01 (Gen.MockEquals.hasInputParameterGen (some e) a false)}"])
       | _, _ => (st, ["bad-op"])
     | _, _ => (st, ["bad-op"])
+  | ["eqapix", te, ta] =>
+    -- as eqapi, for every parameter kind; the question asked is the REGENERATED `hasInputParameter` (expectation found by name)
+    match xTok te, xTok ta with
+    | some e, some a =>
+      match xValue "expected" e, xValue "actual" a with
+      | some e, some a => (st, [s!"p {b01 (Gen.MockEquals.hasInputParameterGen (some e) a false)}"])
+      | _, _ => (st, ["bad-op"])
+    | _, _ => (st, ["bad-op"])
+  | ["dset", api, n, tok] =>
+    -- while a mock() call runs the default repository is mock()'s own
+    match nameArg n, dArg api tok with
+    | some (some name), some d =>
+      match dataEntry (some st.mockRepo) comparatorSem api d with
+      | some f => ({ st with data := st.data.update name f }, [])
+      | none => (st, ["unmodelled"])
+    | _, _ => (st, ["bad-op"])
+  | ["dget", n] =>
+    match nameArg n with
+    | some (some name) =>
+      let c := st.data.getData name
+      (st, [s!"t {Proto.hex (ascii c.val.type_)}", s!"cmp {idStr c.cmp} {idStr c.cop}"] ++ showGetters c.val)
+    | _ => (st, ["bad-op"])
+  | ["deq", n1, n2] =>
+    match nameArg n1, nameArg n2 with
+    | some (some a), some (some b) =>
+      let x := (st.data.getData a).val
+      let y := (st.data.getData b).val
+      (st, [s!"r {b01 (Gen.MockEquals.equalsGen x y)} {b01 (Gen.MockEquals.equalsGen y x)}"])
+    | _, _ => (st, ["bad-op"])
+  | ["dhas", n] =>
+    match nameArg n with
+    | some (some name) => (st, [s!"has {b01 (st.data.getValueByName name).isSome}"])
+    | _ => (st, ["bad-op"])
+  | ["dinstall", ty, id] =>
+    match id.toNat? with
+    | some id => ({ st with mockRepo := st.mockRepo.installComparator ty id }, [])
+    | none => (st, ["bad-op"])
+  | ["dcopier", ty, id] =>
+    match id.toNat? with
+    | some id => ({ st with mockRepo := st.mockRepo.installCopier ty id }, [])
+    | none => (st, ["bad-op"])
+  | ["dremove"] => ({ st with mockRepo := st.mockRepo.clear }, [])
+  | ["dclear"] => ({ st with data := [] }, [])
+  | "cell" :: toks =>
+    -- fold over the tokens: `def:<r|none>` switches the default repository, a value token is one setter call under the
+    -- repository in force at that moment
+    let step (acc : Option (DState × List (Option Repo × SetOp))) (t : String) : Option (DState × List (Option Repo × SetOp)) :=
+      acc.bind fun (s, ops) =>
+        match splitTok t with
+        | ["def", "none"] => some ({ s with dflt := none }, ops)
+        | ["def", r] => r.toNat?.map fun r => ({ s with dflt := some r }, ops)
+        | _ =>
+          match setOpOf t with
+          | some o => some (s, ops ++ [(s.defaultRepo, o)])
+          | none => (mvalOf s t).map fun (v, _, _) => (s, ops ++ [(s.defaultRepo, SetOp.plain v)])
+    match toks.foldl step (some (st, [])) with
+    | some (st', ops) =>
+      match (toks.filter fun t => !t.startsWith "def:").getLast?.bind (mvalOf st') with
+      | some (f, _, _) =>
+        let c := Cell.run comparatorSem Cell.fresh ops
+        (st', [s!"t {Proto.hex (ascii c.val.type_)}", s!"size {c.size}", s!"cmp {idStr c.cmp} {idStr c.cop}",
+               s!"r {b01 (Gen.MockEquals.equalsGen c.val f)} {b01 (Gen.MockEquals.equalsGen f c.val)}"])
+      | none => (st, ["bad-op"])
+    | none => (st, ["bad-op"])
   | ["getret", tv, td] =>
     -- the stored return value is what `andReturnValue(<typed value>)` creates; every reader is followed through the
     -- regenerated reader → getter table (Model/MockReturn.lean)
@@ -272,6 +401,13 @@ def modelStep (st : DState) (op : List String) (obs : List (List String)) : DSta
   | ["skip"] => (st, [])
   | _ => (st, ["bad-op"])
 
+/-- the scenario ops run `mock().clear()`, which empties the data store -/
+def modelStep (st : DState) (op : List String) (obs : List (List String)) : DState × List String :=
+  let r := modelStep0 st op obs
+  match op with
+  | "eqapi" :: _ | "eqapix" :: _ | "getret" :: _ => ({ r.1 with data := [] }, r.2)
+  | _ => r
+
 /-! ## specification oracle -/
 
 inductive SVal where
@@ -358,7 +494,35 @@ def getterNames : List String :=
   ["getIntValue", "getUnsignedIntValue", "getLongIntValue", "getUnsignedLongIntValue",
    "getLongLongIntValue", "getUnsignedLongLongIntValue"]
 
-def specOp (o : Proto.Op) : Except String Unit := do
+/-- shadow of the data store for the oracle: C-string name ↦ (entry, token) of the LAST write -/
+abbrev Shadow := List (List UInt8 × String × String)
+
+def shadowName (w : String) : Option (List UInt8) :=
+  if w == "null" then none else (bytes? w).map fun b => b.takeWhile (· != 0)
+
+def Shadow.last (sh : Shadow) (name : List UInt8) : Option (String × String) :=
+  (sh.find? fun x => x.1 == name).map (·.2)
+
+/-- the value a data write stored, in the oracle's own terms (the C interface takes an `int` for a bool) -/
+def dataSVal (api tok : String) : Except String SVal :=
+  match splitTok tok with
+  | ["bool", n] =>
+    if api == "c" then (match n.toInt? with
+      | some v => .ok (.bool (v != 0))
+      | none => .error s!"{tok}: not an int")
+    else svalOf tok
+  | _ => svalOf tok
+
+def shadowStep (sh : Shadow) (op : List String) : Shadow :=
+  match op with
+  | ["dset", api, n, tok] =>
+    match shadowName n with
+    | some name => (name, api, tok) :: sh
+    | none => sh
+  | ["dclear"] | "eqapi" :: _ | "eqapix" :: _ | "getret" :: _ => []
+  | _ => sh
+
+def specOp (sh : Shadow) (o : Proto.Op) : Except String Unit := do
   match o.op with
   | ["eq", ta, tb] =>
     let a ← svalOf ta
@@ -392,6 +556,29 @@ def specOp (o : Proto.Op) : Except String Unit := do
       let want := b01 (e == a)
       if r != want then throw s!"scenario {if r == "1" then "passed" else "failed"}, must {if e == a then "pass" else "fail"}: expected parameter {e}, actual parameter {a}"
     | _ => throw "no scenario result"
+  | ["eqapix", te, ta] =>
+    -- every parameter kind through every entry point: the call matches exactly when the property says the EXPECTATION (left)
+    -- equals the actual value; a double without an explicit tolerance carries the documented default 0.005
+    let parse (t : String) : Except String SVal :=
+      match t.splitOn "." with
+      | [e, val] =>
+        if !(e == "ovl" || e == "exp" || e == "c") then .error s!"{t}: unknown entry point" else
+        match splitTok val with
+        | ["bool", n] =>
+          if e == "c" then (match n.toInt? with
+            | some v => .ok (.bool (v != 0))                      -- the C interface: any non-zero int is true
+            | none => .error s!"{t}: not an int")
+          else svalOf val
+        | _ => svalOf val
+      | _ => .error s!"{t}: malformed"
+    let e ← parse te
+    let a ← parse ta
+    let ls := o.obs.filter fun l => l.head? == some "p"
+    match ls, expectedEq e a with
+    | [[_, r]], some (want, _) =>
+      if r != b01 want then throw s!"scenario {if r == "1" then "passed" else "failed"}, must {if want then "pass" else "fail"}"
+    | [[_, _]], none => pure ()
+    | _, _ => throw "no scenario result"
   | ["getret", tv, td] =>
     -- every reader returns exactly the stored integer or fails the test; an …OrDefault reader returns the default when
     -- (and only when) no return value was set
@@ -426,6 +613,49 @@ def specOp (o : Proto.Op) : Except String Unit := do
           | none => throw s!"{g}: malformed result {n}"
         | _ => throw s!"{g}: no (or an inconsistent) observation"
     | _ => pure ()
+  | ["dget", n] =>
+    -- an integer stored in the data store and read back through any integer getter: exactly that integer, or the test fails
+    match (shadowName n).bind sh.last with
+    | some (api, tok) =>
+      match dataSVal api tok with
+      | .ok (.int _ v) =>
+        for g in getterNames do
+          let ls := o.obs.filter fun l => l.head? == some g
+          match ls with
+          | [[_, "fail"]] => pure ()
+          | [[_, "ok", r]] =>
+            match r.toInt? with
+            | some r => if r != v then throw s!"{g}() returned {r} for the stored integer {v}"
+            | none => throw s!"{g}: malformed result {r}"
+          | _ => throw s!"{g}: no (or an inconsistent) observation"
+      | _ => pure ()
+    | none => pure ()
+  | ["deq", n1, n2] =>
+    -- the two stored values compare as the property says (the LAST write of each name counts)
+    match (shadowName n1).bind sh.last, (shadowName n2).bind sh.last with
+    | some (a1, t1), some (a2, t2) =>
+      let a ← dataSVal a1 t1
+      let b ← dataSVal a2 t2
+      let some (x, y) := find2 "r" o.obs | throw "equals produced no result"
+      match expectedEq a b with
+      | none => pure ()
+      | some (e1, e2) =>
+        if x != b01 e1 then throw s!"a.equals(b) = {x}, must be {b01 e1}"
+        if y != b01 e2 then throw s!"b.equals(a) = {y}, must be {b01 e2}"
+    | _, _ => pure ()
+  | "cell" :: toks =>
+    -- after any history of setters the object compares with a fresh value of the LAST setter as that value with itself
+    match (toks.filter fun t => !t.startsWith "def:").getLast? with
+    | some t =>
+      let a ← svalOf t
+      let some (x, y) := find2 "r" o.obs | throw "equals produced no result"
+      match expectedEq a a with
+      | none => pure ()
+      | some (e1, e2) =>
+        if x != b01 e1 then throw s!"v.equals(fresh) = {x}, must be {b01 e1}"
+        if y != b01 e2 then throw s!"fresh.equals(v) = {y}, must be {b01 e2}"
+    | none => throw "bad-op"
+  | "dset" :: _ | "dhas" :: _ | "dinstall" :: _ | "dcopier" :: _ | ["dremove"] | ["dclear"] => pure ()
   | ["skip"] => pure ()
   -- the property speaks about equality and the integer getters only: the other operations are checked by the
   -- model/implementation correspondence
@@ -434,13 +664,13 @@ def specOp (o : Proto.Op) : Except String Unit := do
   | _ => throw "bad-op"
 
 def specAll (ops : List Proto.Op) : Option String :=
-  let rec go (i : Nat) : List Proto.Op → Option String
+  let rec go (i : Nat) (sh : Shadow) : List Proto.Op → Option String
     | [] => none
     | o :: rest =>
-      match specOp o with
-      | .ok _ => go (i + 1) rest
+      match specOp sh o with
+      | .ok _ => go (i + 1) (shadowStep sh o.op) rest
       | .error e => some s!"op#{i} {" ".intercalate o.op}: {e}"
-  go 0 ops
+  go 0 [] ops
 
 def main : IO Unit :=
   Proto.driverMain { init := ({} : DState), step := modelStep, spec := specAll }
